@@ -316,8 +316,10 @@ def might_unroll(node: ast.AST, module_top=None) -> bool:
     return any(isinstance(n, ast.For) and _const_seq(module_top, n.iter) is not None for n in ast.walk(node))
 
 
-def unroll_literal_loops(fn: ast.AST, module_top=None) -> bool:
+def unroll_literal_loops(fn: ast.AST, module_top=None, class_consts=None) -> bool:
+    """`class_consts`: name -> tuple display bound once in the class body (`_TABLE = ((..), (..))`), reachable as self.NAME / cls.NAME"""
     changed = False
+    class_consts = class_consts or {}
     local_stores = {n.id for n in ast.walk(fn) if isinstance(n, ast.Name) and isinstance(n.ctx, (ast.Store, ast.Del))} | {a.arg for a in ast.walk(fn) if isinstance(a, ast.arg)}
 
     class S(ast.NodeTransformer):
@@ -369,6 +371,8 @@ def unroll_literal_loops(fn: ast.AST, module_top=None) -> bool:
                     return ast.Tuple([ast.Tuple([k, x], ast.Load()) for k, x in zip(v.keys, v.values)], ast.Load())
                 return ast.Tuple(list(v.keys if it.func.attr == "keys" else v.values), ast.Load())
             return None
+        if isinstance(it, ast.Attribute) and isinstance(it.value, ast.Name) and it.value.id in ("self", "cls") and it.attr in class_consts:
+            return class_consts[it.attr]
         return _const_seq(module_top, loop.iter)
 
     def targets(loop):
@@ -1413,6 +1417,26 @@ def fold_substituted_tests(fn: ast.AST, is_method) -> bool:
             i += 1
 
     rewrite(fn.body)
+
+    class X(ast.NodeTransformer):
+        def visit_IfExp(self, n):
+            nonlocal changed
+            self.generic_visit(n)
+            v = ev(n.test)
+            if v is not None:
+                changed = True
+                return n.body if v else n.orelse
+            return n
+
+        def visit_BoolOp(self, n):
+            nonlocal changed
+            self.generic_visit(n)
+            if isinstance(n.op, ast.Or) and len(n.values) >= 2 and isinstance(n.values[-1], ast.Constant) and n.values[-1].value is None:
+                # `a or b or None` keeps its meaning only in a truth context; leave it
+                return n
+            return n
+
+    X().visit(fn)
     if not fn.body:
         fn.body.append(ast.Pass())
     if changed:
